@@ -30,7 +30,9 @@ RULE = ("cases = (generated type universe, method signature, conformant argument
 ASSUMPTIONS = [
     "the published schema fixes element names, namespaces and order (C06/C07 check the schema)",
     "XML cannot carry non-Char code points: not generated; \\r is not generated in text",
-    "default= customisations are not generated",
+    "default= customisations are not generated in the universes; the `dfl` part covers the one "
+    "place where a default takes part in decoding a conformant document: a repeated member "
+    "declared with a default list, always sent non-empty (1-3 requests on one application)",
     "zeep and lxml are trusted as third-party decoders after calibration on the request side",
 ]
 SOAP11 = "http://schemas.xmlsoap.org/soap/envelope/"
@@ -399,12 +401,104 @@ def _diff_class(t, r):
     return "other"
 
 
+# --------------------------------------------------------------------------- repeated member + default
+_word = st.text(alphabet="abcxyz019", min_size=1, max_size=4)
+_dfl_counter = [0]
+
+
+def dfl_cases():
+    return st.fixed_dictionaries({
+        "dfl": st.just(True), "default": st.lists(_word, max_size=3),
+        "reqs": st.lists(st.lists(_word, min_size=1, max_size=4), min_size=1, max_size=3),
+        "prot": st.sampled_from(["xml", "soap11", "soap12"]),
+        # (no "lxml": the schema writer cannot publish a list as an XSD default attribute and
+        # raises while building the schema, which is outside this property)
+        "validator": st.sampled_from([None, "soft"]),
+        "mo": st.sampled_from(["unbounded", 5])})
+
+
+def run_dfl(case, rec):
+    """Bag.tags = Unicode(max_occurs>1, default=[...]); every request carries a non-empty list
+    of tags: the function must see exactly that list, request after request, the reply must
+    carry it back and the declared default must still be what was declared."""
+    from spyne import Application, rpc, ServiceBase, ComplexModel, Unicode, Integer
+    fails = []
+    _dfl_counter[0] += 1
+    tns = "urn:c01:dfl:%d" % _dfl_counter[0]
+    declared = list(case["default"])
+    mo = case["mo"]
+    seen = []
+    try:
+        Bag = type("Bag", (ComplexModel,), {
+            "__namespace__": tns,
+            "_type_info": [("tags", Unicode(max_occurs=mo, default=list(declared))),
+                           ("n", Integer)]})
+
+        def m0(ctx, bag):
+            seen.append(None if bag is None or bag.tags is None else list(bag.tags))
+            return None if bag is None else bag.tags
+        S = type("DflService", (ServiceBase,), {
+            "m0": rpc(Bag, _returns=Unicode(max_occurs="unbounded"))(m0)})
+        inp, outp = _protocols(case)
+        app = Application([S], tns, in_protocol=inp, out_protocol=outp)
+    except Exception as e:
+        et, where = F.exc_origin(e)
+        fails.append(("C01|build-raises|%s|%s" % (et, where), "building the dfl application raised %r" % (e,)))
+        rec.case(case, failures=fails, classes=["build_error"])
+        return fails
+    env_ns = {"soap11": SOAP11, "soap12": SOAP12}.get(case["prot"])
+    for i, tags in enumerate(case["reqs"]):
+        body = etree.Element(q(tns, "m0"), nsmap={None: tns})
+        bag = etree.SubElement(body, q(tns, "bag"))
+        for t in tags:
+            etree.SubElement(bag, q(tns, "tags")).text = t
+        etree.SubElement(bag, q(tns, "n")).text = str(i)
+        root = body
+        if env_ns:
+            root = etree.Element(q(env_ns, "Envelope"), nsmap={"e": env_ns})
+            etree.SubElement(root, q(env_ns, "Body")).append(body)
+        n0 = len(seen)
+        out = drive.server_call(app, etree.tostring(root))
+        ctx = "request %d of %d, tags=%r, declared default=%r, %s/%s" % (
+            i + 1, len(case["reqs"]), tags, declared, case["prot"], case["validator"])
+        if out.escaped is not None or out.fault is not None:
+            fails.append(("C01|conformant-request-refused|dfl", "%s: %r" % (ctx, out.escaped or out.fault)))
+            continue
+        if seen[n0:] != [tags]:
+            fails.append(("C01|args-differ|dfl", "%s: the function saw %r" % (ctx, seen[n0:])))
+        try:
+            rroot = etree.fromstring(out.out_bytes)
+            if env_ns:
+                rroot = rroot.find(q(env_ns, "Body"))
+            got = [el.text or "" for el in rroot.iter() if isinstance(el.tag, str) and len(el) == 0
+                   and el is not rroot]
+        except Exception as e:
+            got = "unparseable: %r" % (e,)
+        if got != tags:
+            fails.append(("C01|response-differs|dfl", "%s: the reply carries %r\n%s"
+                          % (ctx, got, (out.out_bytes or b"")[:400])))
+    now = Bag._type_info["tags"].Attributes.default
+    if now != declared:
+        fails.append(("C01|default-mutated|dfl", "after %r the declared default %r reads %r"
+                      % (case["reqs"], declared, now)))
+    nt = None
+    if len(case["reqs"]) > 1 or declared:
+        nt = ["dfl", len(declared), len(case["reqs"]), case["prot"], case["validator"], str(mo),
+              [len(r) for r in case["reqs"]]]
+    rec.case(case, failures=fails, nontrivial=nt, classes=["dfl"])
+    return fails
+
+
 def shards(tier):
     n = 600 if tier == "quick" else 12000
-    return [{"kind": "hyp", "i": i, "n": n} for i in range(16)]
+    return [{"kind": "hyp", "i": i, "n": n} for i in range(16)] + \
+        [{"kind": "dfl", "i": 0, "n": 200 if tier == "quick" else 4000}]
 
 
 def run_shard(shard, rec):
+    if shard["kind"] == "dfl":
+        rec.hyp(dfl_cases(), lambda case: run_dfl(case, rec), shard["n"])
+        return
     rec.hyp(cases(rec.tier), lambda case: run_case(case, rec), shard["n"])
 
 
@@ -416,4 +510,6 @@ class _NullRec(object):
 
 
 def replay(case):
+    if case.get("dfl"):
+        return run_dfl(case, _NullRec())
     return run_case(case, _NullRec())
